@@ -180,6 +180,25 @@ def generate(repo):
     if len(w.recurse) != 1 or w.recurse[0][0] != 'self' or ast.unparse(w.recurse[0][1]) != 'start_indent':
         raise ExtractError('serialise: unrecognised call of _serialise')
 
+    # parse(): the two flag-replace tests `can_flag_replace and [cur_block_contents and] cur_block_contents[-1]...`
+    par = _method(cls, 'parse')
+    guards = []
+    for n in ast.walk(par):
+        if isinstance(n, ast.If) and isinstance(n.test, ast.BoolOp) and isinstance(n.test.op, ast.And) \
+                and isinstance(n.test.values[0], ast.Name) and n.test.values[0].id == 'can_flag_replace':
+            rest = [ast.unparse(v) for v in n.test.values[1:]]
+            guarded = 'cur_block_contents' in rest
+            core = [r for r in rest if r != 'cur_block_contents']
+            kind = ('block' if core == ['cur_block_contents[-1]._real_name == token_value', 'cur_block_contents[-1].has_children()']
+                    else 'leaf' if core == ['cur_block_contents[-1]._real_name == token_value', 'isinstance(cur_block_contents[-1].value, str)']
+                    else None)
+            if kind is None:
+                raise ExtractError('parse: unrecognised flag-replace test: ' + ast.unparse(n.test))
+            guards.append((n.lineno, kind, guarded))
+    guards.sort()
+    if [g[1] for g in guards] != ['block', 'leaf']:
+        raise ExtractError('parse: expected one block and one leaf flag-replace test, found ' + str(guards))
+
     def b(x):
         return 'true' if x else 'false'
 
@@ -192,6 +211,9 @@ def generate(repo):
         'def cfg : C01.SerCfg :=',
         f'  {{ escBlockName := {b(fields["escBlockName"])}, escLeafName := {b(fields["escLeafName"])}, '
         f'escLeafValue := {b(fields["escLeafValue"])} }}',
+        '',
+        '/-- `Keyvalues.parse`: is the flag-replace test guarded by `cur_block_contents and` (block path, leaf path)? -/',
+        f'def parseGuards : Bool × Bool := ({b(guards[0][2])}, {b(guards[1][2])})',
         '',
         '/-- the text templates of `_serialise` / `serialise` ("$x" = interpolated variable or field). -/',
         'def shape : List (String × List String) := [',
